@@ -318,6 +318,39 @@ def run_pool_partial(tier='quick', seed=0):
                 rule='non-trivial = every case', cases=cases, nontrivial=cases, failures=failures)
 
 
+def outputs_shared_probe(elfi, seed=1, bs=3):
+    """a pool that already holds batch 0 of a (deterministic) node u but not batch 1; requested outputs [s]:
+    compute(0), compute(1), compute(0) - the two results of compute(0) must be the same dict -> None or a description"""
+    from elfi.client import BatchHandler
+    from elfi.model.elfi_model import ComputationContext
+    spec = [('a', 'scipy', (), 2), ('b', 'op', ('a',), 0), ('c', 'op', ('b',), 0)]
+    pool = elfi.OutputPool(['b'])
+    h = BatchHandler(build(elfi, spec), ComputationContext(bs, seed=seed, pool=pool), output_names=['c'])
+    with native.time_limit(30):
+        h.submit()
+        h.wait_next()                      # fills batch 0 of the pool
+        h2 = BatchHandler(build(elfi, spec), ComputationContext(bs, seed=seed, pool=pool), output_names=['c'])     # a new run on the stored pool
+        before = sorted(h2.compiled_net.graph['outputs'])
+        a = freeze(h2.compute(0))
+        h2.compute(1)
+        c = freeze(h2.compute(0))
+        after = sorted(h2.compiled_net.graph['outputs'])
+    if a != c:
+        return ('compute(0) returned keys %s, after compute(1) it returns keys %s (requested outputs of the compiled net: %s -> %s)'
+                % (sorted(a), sorted(c), before, after))
+    if before != after:
+        return 'requested outputs of the compiled net changed by loading batches: %s -> %s' % (before, after)
+    return None
+
+
+def run_outputs_shared(tier='quick', seed=0):
+    elfi = native.import_elfi()
+    d = outputs_shared_probe(elfi)
+    return dict(name='pool-result-keys', bound='Prior a -> Operation b -> Operation c, OutputPool([b]) holding batch 0 only, outputs [c]: compute(0), compute(1), compute(0)',
+                rule='non-trivial = every case', cases=3, nontrivial=3,
+                failures=[dict(signature='c02:result-keys-depend-on-history', what=d, input=dict(probe='outputs-shared'))] if d else [])
+
+
 def spec_from_input(inp):
     return [(s[0], s[1], tuple(s[2]), s[3]) for s in inp['spec']]
 
@@ -372,10 +405,16 @@ def submit_precondition_probe(elfi):
         S = elfi.Summary(mean, s, model=m, name='S')
         d = elfi.Distance('euclidean', S, model=m, name='d')
         with native.time_limit(120):
-            elfi.SMC(d, batch_size=20, seed=1).sample(10, thresholds=[2.0, 1.0], bar=False)
+            perturb_global(3)
+            r1 = elfi.SMC(d, batch_size=20, seed=1).sample(10, thresholds=[2.0, 1.0], bar=False)
+            perturb_global(4)
+            np.random.rand(11)
+            r2 = elfi.SMC(d, batch_size=20, seed=1).sample(10, thresholds=[2.0, 1.0], bar=False)
     finally:
         BatchHandler.submit = orig
     bad = [(k, o) for k, o in seen if not set(k) <= set(o)]
+    if freeze(r1.outputs) != freeze(r2.outputs):
+        bad.append(('seeded SMC(seed=1).sample(10, thresholds=[2, 1]) differs between two runs in one process', ''))
     return len(seen), bad
 
 
@@ -471,8 +510,11 @@ def sort_check(sortfn, names, edges, rng, n_orders=3):
         else:
             G.add_nodes_from(ns)
             G.add_edges_from(es)
-        with native.time_limit(5):
-            r = sortfn(G)
+        try:
+            with native.time_limit(5):
+                r = sortfn(G)
+        except Exception as e:
+            return 'c02:sort-exception', '%s: %s on a DAG' % (type(e).__name__, str(e)[:120]), dict(nodes=ns, edges=[list(e_) for e_ in es])
         if sorted(r) != sorted(names):
             return 'c02:sort-not-a-permutation', 'result %s is not a permutation of the node set' % (r,), dict(nodes=ns, edges=[list(e) for e in es])
         pos = {x: i for i, x in enumerate(r)}
@@ -547,7 +589,7 @@ def run(tier='quick', seed=0, first_failure_only=True, n_models=None):
             n, bad = submit_precondition_probe(elfi)
             cases += n
             if bad:
-                failures.append(dict(signature='c02:submit-override-not-an-output', what='submit(batch) with keys %s, requested outputs %s' % bad[0], input=dict(probe='submit')))
+                failures.append(dict(signature='c02:submit-override-not-an-output' if bad[0][1] != '' else 'c02:smc-repeat', what='submit(batch) with keys %s, requested outputs %s' % bad[0] if bad[0][1] != '' else bad[0][0], input=dict(probe='submit')))
         except Exception as e:
             failures.append(dict(signature='c02:exception', what='SMC probe: %s: %s' % (type(e).__name__, str(e)[:200]), input=dict(probe='submit')))
     return dict(name='seeded-runs-end-to-end', bound='%d generated models <= 5 user nodes x seeds %s x batch sizes %s x {global-RNG perturbation, unrelated earlier runs, '
@@ -580,6 +622,13 @@ def replay_input(inp):
         return len(f14_rebuilds(elfi, inp.get('o1', 'a'), inp.get('o2', 'a_b'), n=inp.get('rebuilds', 30))) == 1
     if probe == 'f14-forced':
         return f14_forced(elfi, inp) is None
+    if probe in ('seeded-runs-end-to-end', 'sort-all-small-dags', 'f14-two-priors-rebuilt', 'pool-stores-one-stochastic-node'):
+        try:
+            r = dict(zip(('seeded-runs-end-to-end', 'sort-all-small-dags', 'f14-two-priors-rebuilt', 'pool-stores-one-stochastic-node'),
+                         (run, run_sort, run_f14, run_pool_partial)))[probe]('quick', 0)
+        except Exception:
+            return False
+        return not [f for f in r['failures'] if f['signature'] == 'c02:exception']
     if probe == 'sort':
         ex = native.load_file_module('elfi/executor.py')
         return sort_check(ex.nx_constant_topological_sort, inp.get('canonical_nodes', inp['nodes']), [tuple(e) for e in inp.get('canonical_edges', inp['edges'])], random.Random(0), 6) is None
@@ -587,6 +636,8 @@ def replay_input(inp):
         return rejection_probe(elfi) is None
     if probe == 'submit':
         return not submit_precondition_probe(elfi)[1]
+    if probe == 'outputs-shared':
+        return outputs_shared_probe(elfi) is None
     if probe == 'pool-partial':
         spec = [('a', 'scipy', (), 2), ('b', 'sim', ('a',), 0)]
         m = build(elfi, spec)
